@@ -1,11 +1,15 @@
 """C17 - mesh masking keeps whole triangles and attributes; mesh geometry is sound.
 
-Three clauses:
+Clauses:
   mask      from_mask / from_tri_mask against a reference masking model (plain python sets/loops)
   geometry  tri_areas / edge lengths / normals against loop references + metamorphic relations
-            (rigid motion, uniform positive scale) on independently transformed coordinates
-  edges     boundary_tri_index / unique_edge_indices / edge_indices / edge_vectors against reference
-            undirected-edge counting
+            (rigid motion, uniform positive scale) on independently transformed coordinates; zero-area
+            triangles; vertex normals inside the cone of their incident triangle normals
+  edges     boundary_tri_index / unique_edge_indices / edge_indices / edge_vectors / unique_edge_vectors /
+            as_pointgraph / tojson against reference undirected-edge counting
+  slim      areas of slim triangles in double / single precision
+  big       meshes of 125 .. 65.8k vertices with the triangle list in compact index dtypes (dtype limits)
+  depth     the masking done inside init_from_depth_image for masked depth images
 """
 import math
 
@@ -29,7 +33,11 @@ RULE = (
     "(constructor without trilist, 2-D, lifted likewise) and closed surfaces (tetrahedron, k-gon bipyramids incl. "
     "octahedron, cube; optional orphan vertices and the same edit ops). Masks are vertex or triangle masks drawn "
     "as per-element digits against a density threshold with one seed triangle forced in, so >= 1 whole triangle "
-    "always survives. mask: non-trivial = removes >= 1 vertex; geometry: non-trivial = rotation not the identity "
+    "always survives; the mask array is the caller's own array, a non-contiguous view or read-only; colours may be "
+    "uint8 / float32 and tcoords float32. geometry additionally welds a corner onto another corner or onto the midpoint "
+    "of the opposite edge (zero-area triangles) in a quarter of the cases. big: grids with holes and fins at the index "
+    "limits of int8 / uint8 / int16 / uint16 trilists; depth: 2..5 x 2..5 depth images, plain / all-true / block masks. "
+    "mask: non-trivial = removes >= 1 vertex; geometry: non-trivial = rotation not the identity "
     "and >= 1 non-degenerate triangle; edges: non-trivial = some edge is shared by >= 2 triangles. "
     "distinct = distinct canonical-JSON digest of the case"
 )
@@ -44,6 +52,17 @@ ASSUMPTIONS = [
     "order of vertices / triangles in the result and vertex order inside a triangle are not asserted (multisets of unordered triples)",
     "normal clauses apply to triangles with reference area >= 1e-3 (coordinates O(10)); vertex normals are asserted unit only "
     "where the reference sum of incident unit triangle normals has norm >= 1e-6 and no incident triangle is degenerate",
+    "the definition of vertex normals (plain / area / angle weighted sum) is not pinned: only unit length, finiteness and - "
+    "for vertices whose incident unit triangle normals have pairwise dot products > 0.5 - a dot product > 0.25 with each "
+    "incident triangle normal (any positively weighted normalised sum gives >= 0.5)",
+    "zero-area triangles: tri_normals / vertex_normals are asserted finite only (the tree returns zero rows); nothing is "
+    "asserted about their direction",
+    "masks are boolean ndarrays as the docstrings require; integer 0/1 arrays and python lists are not generated "
+    "(from_mask rejects them, from_tri_mask reads an integer array as an index list)",
+    "init_from_depth_image is exercised only with masks that leave no orphan pixel (blocks of >= 2 x 2): a mask leaving "
+    "an orphan makes the constructor fail (stacking kept depths onto fewer points), which is outside the statement",
+    "unique_edge_vectors rows are matched to the edges as a multiset (order documented as arbitrary) and row by row to "
+    "unique_edge_indices() of the same mesh",
     "the sign of triangle normals is not asserted against the winding; it is pinned only through n(R M + t) = R n(M)",
     "edge_vectors rows are compared with +-(p_j - p_i) of the documented edge (the third row is AC in the code, CA in the "
     "docstring; the property speaks about lengths only)",
@@ -142,6 +161,8 @@ def mesh_case(draw, dims=(2, 3)):
         # the triangle list may be stored in any integer dtype wide enough for the vertex indices (compact meshes
         # are routinely kept as uint16 / uint8); None = whatever the constructor produced
         "tl_dtype": draw(st.sampled_from([None, None, None, "int32", "uint16", "uint8", "int64"])),
+        # per-vertex attributes need not be float64: 8-bit colours as loaded from a file, single precision tcoords
+        "adtype": draw(st.sampled_from([None, None, "uint8", "float32"])),
     }
     d, src = c["d"], c["src"]
     if src == "list":
@@ -202,6 +223,13 @@ def build_mesh(c):
     n = c["n"]
     colours = np.round(rs.rand(n, 3) * 4096) / 4096 if c["cls"] == "ColouredTriMesh" else None
     tcoords = np.round(rs.rand(n, 2) * 4096) / 4096 if c["cls"] == "TexturedTriMesh" else None
+    adt = c.get("adtype")
+    if adt == "uint8" and colours is not None:
+        colours = np.floor(colours * 255.999).astype(np.uint8)
+    elif adt == "float32" and colours is not None:
+        colours = colours.astype(np.float32)
+    if adt is not None and tcoords is not None:
+        tcoords = tcoords.astype(np.float32)
     texture = None
     if c["cls"] == "TexturedTriMesh":
         texture = Image(rs.rand(c["tex"]["ch"], *c["tex"]["shape"]))
@@ -323,6 +351,8 @@ def mesh_events(ctx, c, T, n):
     dup = len(set(tuple(sorted(t)) for t in T)) < len(T)
     ctx.event("src=%s d=%d" % (c["src"], c["d"]))
     ctx.event("cls=" + c["cls"])
+    if c.get("adtype") and c["cls"] != "TriMesh":
+        ctx.event("per-vertex attribute dtype " + ("float32" if c["cls"] == "TexturedTriMesh" else c["adtype"]))
     if closed:
         ctx.event("mesh: closed surface")
     if nonman:
@@ -354,10 +384,27 @@ def s_mask():
                 "thr": draw(st.sampled_from([1, 2, 4, 6, 8])),
                 "bits": draw(st.lists(st.integers(0, 9), min_size=ln, max_size=ln)),
                 "seed": draw(st.integers(0, 1 << 12)),
+                # the boolean mask array as the caller holds it: an own array, every other element of a larger
+                # buffer (non-contiguous view) or a read-only array
+                "form": draw(st.sampled_from(["plain", "plain", "strided", "readonly"])),
             },
         }
 
     return s()
+
+
+def mask_array(bits, form):
+    """A 1-D boolean ndarray holding `bits`, laid out as the case says."""
+    if form == "strided":
+        buf = np.zeros(2 * len(bits), dtype=bool)
+        buf[1::2] = True  # the skipped elements are all set: a consumer ignoring the stride reads garbage
+        arr = buf[::2]
+        arr[:] = bits
+        return arr
+    arr = np.array(bits, dtype=bool)
+    if form == "readonly":
+        arr.setflags(write=False)
+    return arr
 
 
 def c_mask(case, ctx):
@@ -412,11 +459,13 @@ def c_mask(case, ctx):
         mesh.tri_normals()
         mesh.vertex_normals()
     before = digest(mesh)
+    form = mk.get("form", "plain")
+    ctx.event("mask array: " + form)
     if tmask is None:
-        arg = np.array(vm, dtype=bool)
+        arg = mask_array(vm, form)
         res = mesh.from_mask(arg)
     else:
-        arg = np.array(tmask, dtype=bool)
+        arg = mask_array(tmask, form)
         res = mesh.from_tri_mask(arg)
     dd = parameter_mutation(before, digest(mesh))
     ctx.expect(dd is None, "mask.receiver_mutated", lambda: repr(dd))
@@ -512,6 +561,12 @@ def c_mask(case, ctx):
         ctx.expect(
             np.array_equal(res.texture.pixels, b.texture.pixels), "mask.texture_changed", "texture pixels differ"
         )
+        # the pixel-scaled texture coordinates (texture look-up positions) travel with the vertices as well
+        tps_r = np.asarray(res.tcoords_pixel_scaled().points)
+        tps_m = np.asarray(mesh.tcoords_pixel_scaled().points)
+        ok = tps_r.shape == (RP.shape[0], 2) and tps_m.shape == (n, 2)
+        ok = ok and close(tps_r, tps_m[orig], rtol=0, atol=1e-9 * max(b.texture.shape))
+        ctx.expect(ok, "mask.tcoords_pixel_scaled_not_carried", lambda: "%s\nvs receiver (rows %s of)\n%s" % (tps_r, orig, tps_m))
     if b.lms:
         ok = res.has_landmarks and sorted(res.landmarks.group_labels) == sorted(nm for nm, _ in b.lms)
         ok = ok and all(np.array_equal(res.landmarks[nm].points, a) for nm, a in b.lms)
@@ -545,14 +600,32 @@ def s_geom():
             "s": draw(st.one_of(gen.q(0.25, 4), gen.q(0.25, 4),
                                 st.tuples(gen.q(1, 9, 8), st.integers(-6, 6)).map(lambda t: float("%ge%d" % (t[0], t[1]))))),
             "alt_dtype": draw(st.sampled_from(["int64", "int64", "int32", "float32"])),
+            # zero-area triangles (legal meshes: scanned surfaces contain slivers and welded vertices): a corner moved
+            # onto another corner ("weld") or onto the midpoint of the opposite edge ("mid") of one triangle
+            "degen": draw(st.one_of(st.just([]), st.just([]), st.just([]), st.lists(
+                st.tuples(st.sampled_from(["weld", "mid"]), st.integers(0, 1 << 12), st.integers(0, 2)).map(list),
+                min_size=1, max_size=2))),
         }
 
     return s()
 
 
+def apply_degen(b, ops):
+    """Move one corner of the chosen triangles so that they have exactly (quantised coordinates) or nearly zero area;
+    the mesh object and the reference coordinates are edited alike, before anything is computed."""
+    for kind, k, e in ops:
+        tri = b.T[k % len(b.T)]
+        a, b_, c_ = tri[e], tri[(e + 1) % 3], tri[(e + 2) % 3]
+        new = b.P[b_].copy() if kind == "weld" else (b.P[b_] + b.P[c_]) / 2.0
+        b.P[a] = new
+        b.mesh.points[a] = new
+
+
 def c_geom(case, ctx):
     c = case["mesh"]
     b = build_mesh(c)
+    if case.get("degen"):
+        apply_degen(b, case["degen"])
     mesh, P, T = b.mesh, b.P, b.T
     n, nt, d = P.shape[0], len(T), P.shape[1]
     counts, used = mesh_events(ctx, c, T, n)
@@ -579,6 +652,8 @@ def c_geom(case, ctx):
     ctx.nontrivial(any(nondeg) and not close(R, np.eye(d), atol=1e-3))
     if not all(nondeg):
         ctx.event("mesh: has degenerate triangle (area < 1e-3)")
+    if any(a == 0.0 for a in refA):
+        ctx.event("mesh: has a triangle of exactly zero area")
 
     # ---- areas
     A = np.asarray(mesh.tri_areas())
@@ -630,11 +705,49 @@ def c_geom(case, ctx):
             lambda: "%r vs %r" % (mesh.mean_edge_length(), sum(refU) / len(refU)),
         )
 
+    # ---- the same coordinates stored in another dtype give the same geometry (integer pixel / voxel coordinates are
+    # legal mesh points): coordinates rounded to a 1/4 grid and scaled to integers, compared float64 vs int64 / float32
+    Pi = np.round(P * 4.0)
+    alt = case.get("alt_dtype", "int64")
+    ctx.event("alternative coordinate dtype %s" % alt)
+    m_f = TriMesh(Pi.astype(np.float64), trilist=Tn)
+    m_a = TriMesh(Pi.astype(alt), trilist=Tn)
+    refAi = np.array([ref_area(Pi.tolist(), tri) for tri in T])
+    okt = refAi >= 0.5  # triangles that did not collapse in the rounding
+    tol_alt = 1e-9 if alt != "float32" else 1e-4
+    Li = float(max(np.abs(Pi).max(), 1.0))
+    for nm, sc in (("tri_areas", Li * Li), ("edge_lengths", Li)):
+        a_, f_ = np.asarray(getattr(m_a, nm)(), dtype=float), np.asarray(getattr(m_f, nm)(), dtype=float)
+        ctx.expect(a_.shape == f_.shape and close(a_, f_, rtol=0, atol=tol_alt * sc), "dtype.%s_depend_on_coordinate_dtype" % nm,
+                   lambda: "%s\n%s" % (alt, describe(a_, f_)))
+    if d == 3 and okt.any():
+        a_, f_ = np.asarray(m_a.tri_normals(), dtype=float), np.asarray(m_f.tri_normals(), dtype=float)
+        ctx.expect(close(a_[okt], f_[okt], rtol=0, atol=1e3 * tol_alt), "dtype.tri_normals_depend_on_coordinate_dtype", lambda: describe(a_[okt], f_[okt]))
+        # vertices all of whose triangles survived the rounding and whose incident normals do not cancel
+        a_, f_ = np.asarray(m_a.vertex_normals(), dtype=float), np.asarray(m_f.vertex_normals(), dtype=float)
+        keep = []
+        for v in range(n):
+            inc = [k for k, tri in enumerate(T) if v in tri]
+            if inc and all(okt[k] for k in inc):
+                sv = np.sum([ref_unit_normal(Pi.tolist(), T[k]) for k in inc], axis=0)
+                if float(np.linalg.norm(sv)) >= 0.05:
+                    keep.append(v)
+        if keep:
+            ctx.event("dtype: >=1 vertex normal compared across dtypes")
+            ctx.expect(close(a_[keep], f_[keep], rtol=0, atol=1e3 * tol_alt), "dtype.vertex_normals_depend_on_coordinate_dtype",
+                       lambda: "%s vertices %s\n%s" % (alt, keep, describe(a_[keep], f_[keep])))
+
     # ---- normals (3-D only)
     if d != 3:
         return
     nd = [k for k in range(nt) if nondeg[k]]
     N = np.asarray(mesh.tri_normals())
+    if N.shape == (nt, 3):
+        # defined for every triangle, zero-area ones included: a number, never NaN / inf
+        ctx.expect(bool(np.all(np.isfinite(N))), "tri_normals.nonfinite", lambda: "areas %s\n%r" % (refA, N))
+        for nm_, m_ in (("rigid", m_rig), ("scaled", m_sc)):
+            N_ = np.asarray(m_.tri_normals())
+            ctx.expect(bool(np.all(np.isfinite(N_))), "tri_normals.nonfinite", lambda: "%s copy, scale %r\n%r" % (nm_, s, N_))
     if ctx.expect(N.shape == (nt, 3), "tri_normals.shape", repr(N.shape)) and nd:
         ctx.expect(
             close(np.linalg.norm(N[nd], axis=1), np.ones(len(nd)), atol=1e-9, rtol=0),
@@ -690,6 +803,29 @@ def c_geom(case, ctx):
         if n_unit:
             ctx.event("vertex normals: >=1 vertex asserted unit")
         ctx.expect(not bad_unit, "vertex_normals.not_unit", lambda: "vertices %s norms %s" % (bad_unit, vn[bad_unit]))
+        # direction: whatever the weighting of the incident triangles (plain, area, angle), a vertex whose incident
+        # triangle normals all lie in a narrow cone (pairwise dot > 0.5; a single incident triangle counts) has its
+        # normal w = sum a_i n_i / |sum a_i n_i| with a_i > 0, so w.n_j >= 0.5 sum a_i / sum a_i = 0.5 for every j;
+        # asserted with head room as > 0.25
+        bad_cone, n_cone = [], 0
+        for v in range(n):
+            if v not in used or tainted[v]:
+                continue
+            inc = [ref_unit_normal(p, tri) for tri in T if v in tri]
+            dots = [sum(x * y for x, y in zip(inc[i], inc[j])) for i in range(len(inc)) for j in range(i + 1, len(inc))]
+            if dots and min(dots) <= 0.5:
+                continue
+            n_cone += 1
+            if not all(float(V[v].dot(u)) > 0.25 for u in inc):
+                bad_cone.append(v)
+        if n_cone:
+            ctx.event("vertex normals: >=1 vertex with incident normals in a narrow cone")
+        ctx.expect(not bad_cone, "vertex_normals.outside_cone_of_incident_normals",
+                   lambda: "vertices %s: %s\nincident triangle normals %s" % (
+                       bad_cone, V[bad_cone], [[ref_unit_normal(p, tri) for tri in T if v in tri] for v in bad_cone]))
+        for nm_, m_ in (("rigid", m_rig), ("scaled", m_sc)):
+            V_ = np.asarray(m_.vertex_normals())
+            ctx.expect(bool(np.all(np.isfinite(V_))), "vertex_normals.nonfinite", lambda: "%s copy, scale %r\n%r" % (nm_, s, V_))
         ctx.expect(not bad_orphan, "vertex_normals.orphan_not_zero", lambda: "vertices %s: %s" % (bad_orphan, V[bad_orphan]))
         # unit vertex normals of the uniformly scaled copy are unit too (and the same directions)
         V_sc = np.asarray(m_sc.vertex_normals())
@@ -697,38 +833,6 @@ def c_geom(case, ctx):
         if asserted and V_sc.shape == (n, 3) and all(nondeg):
             ctx.expect(close(V_sc[asserted], V[asserted], atol=1e-7, rtol=0), "vertex_normals.change_under_scale",
                        lambda: "scale %r\n%s" % (s, describe(V_sc[asserted], V[asserted])))
-
-    # ---- the same coordinates stored in another dtype give the same geometry (integer pixel / voxel coordinates are
-    # legal mesh points): coordinates rounded to a 1/4 grid and scaled to integers, compared float64 vs int64 / float32
-    Pi = np.round(P * 4.0)
-    alt = case.get("alt_dtype", "int64")
-    ctx.event("alternative coordinate dtype %s" % alt)
-    m_f = TriMesh(Pi.astype(np.float64), trilist=Tn)
-    m_a = TriMesh(Pi.astype(alt), trilist=Tn)
-    refAi = np.array([ref_area(Pi.tolist(), tri) for tri in T])
-    okt = refAi >= 0.5  # triangles that did not collapse in the rounding
-    tol_alt = 1e-9 if alt != "float32" else 1e-4
-    Li = float(max(np.abs(Pi).max(), 1.0))
-    for nm, sc in (("tri_areas", Li * Li), ("edge_lengths", Li)):
-        a_, f_ = np.asarray(getattr(m_a, nm)(), dtype=float), np.asarray(getattr(m_f, nm)(), dtype=float)
-        ctx.expect(a_.shape == f_.shape and close(a_, f_, rtol=0, atol=tol_alt * sc), "dtype.%s_depend_on_coordinate_dtype" % nm,
-                   lambda: "%s\n%s" % (alt, describe(a_, f_)))
-    if d == 3 and okt.any():
-        a_, f_ = np.asarray(m_a.tri_normals(), dtype=float), np.asarray(m_f.tri_normals(), dtype=float)
-        ctx.expect(close(a_[okt], f_[okt], rtol=0, atol=1e3 * tol_alt), "dtype.tri_normals_depend_on_coordinate_dtype", lambda: describe(a_[okt], f_[okt]))
-        # vertices all of whose triangles survived the rounding and whose incident normals do not cancel
-        a_, f_ = np.asarray(m_a.vertex_normals(), dtype=float), np.asarray(m_f.vertex_normals(), dtype=float)
-        keep = []
-        for v in range(n):
-            inc = [k for k, tri in enumerate(T) if v in tri]
-            if inc and all(okt[k] for k in inc):
-                sv = np.sum([ref_unit_normal(Pi.tolist(), T[k]) for k in inc], axis=0)
-                if float(np.linalg.norm(sv)) >= 0.05:
-                    keep.append(v)
-        if keep:
-            ctx.event("dtype: >=1 vertex normal compared across dtypes")
-            ctx.expect(close(a_[keep], f_[keep], rtol=0, atol=1e3 * tol_alt), "dtype.vertex_normals_depend_on_coordinate_dtype",
-                       lambda: "%s vertices %s\n%s" % (alt, keep, describe(a_[keep], f_[keep])))
 
 
 # ==============================================================================================
@@ -868,7 +972,57 @@ def c_edges(case, ctx):
             lambda: "trilist=%s\n got %s\n want %s" % (T, sorted(set(got)), sorted(counts)),
         )
     UV = np.asarray(mesh.unique_edge_vectors())
-    ctx.expect(UV.shape == (len(counts), P.shape[1]), "unique_edge_vectors.shape", repr(UV.shape))
+    if ctx.expect(UV.shape == (len(counts), P.shape[1]), "unique_edge_vectors.shape", repr(UV.shape)):
+        # one vector per undirected edge: +-(p_j - p_i). The order of the rows is documented as arbitrary, so they are
+        # matched to the reference edges as a multiset (edges with equal vectors, as on a grid, are interchangeable)
+        Lu = float(max(np.abs(P).max(), 1.0))
+        pool = [P[j] - P[i] for (i, j) in sorted(counts)]
+        unmatched = []
+        for g in UV:
+            hit = None
+            for q_, w in enumerate(pool):
+                if min(maxdiff(g, w), maxdiff(g, -w)) <= 1e-9 * Lu:
+                    hit = q_
+                    break
+            if hit is None:
+                unmatched.append([float(x) for x in g])
+            else:
+                del pool[hit]
+        ctx.expect(not unmatched, "unique_edge_vectors.not_the_edges",
+                   lambda: "trilist=%s\n rows matching no (remaining) edge: %s\n edges left over: %s" % (
+                       T, unmatched, [[float(x) for x in w] for w in pool]))
+        # and row k is the vector of row k of unique_edge_indices() of the same call sequence on the same mesh
+        UE2 = np.asarray(mesh.unique_edge_indices())
+        if UE2.shape == (len(counts), 2) and UE2.size and 0 <= int(UE2.min()) and int(UE2.max()) < n:
+            W = P[UE2[:, 1].astype(int)] - P[UE2[:, 0].astype(int)]
+            okr = all(min(maxdiff(UV[r], W[r]), maxdiff(UV[r], -W[r])) <= 1e-9 * Lu for r in range(len(W)))
+            ctx.expect(okr, "unique_edge_vectors.rows_vs_unique_edge_indices",
+                       lambda: "unique_edge_indices=%s\nunique_edge_vectors=%s\npoints=%s" % (UE2.tolist(), UV.tolist(), P.tolist()))
+
+    # ---- the mesh as a graph: the same points, joined by exactly the undirected edges of the triangles
+    pg = mesh.as_pointgraph()
+    GP = np.asarray(pg.points)
+    ctx.expect(GP.shape == P.shape and np.array_equal(GP, P), "as_pointgraph.points", lambda: describe(GP, P))
+    GE = np.asarray(pg.edges)
+    if ctx.expect(GE.ndim == 2 and GE.shape[1] == 2, "as_pointgraph.edges_shape", repr(GE.shape)):
+        got = [ukey(int(a), int(c2)) for a, c2 in GE]
+        ctx.expect(len(set(got)) == len(got) and set(got) == set(counts), "as_pointgraph.edges",
+                   lambda: "trilist=%s (%s)\n graph edges %s\n want %s" % (T, np.asarray(mesh.trilist).dtype, sorted(got), sorted(counts)))
+    if b.lms:
+        ok = pg.has_landmarks and sorted(pg.landmarks.group_labels) == sorted(nm for nm, _ in b.lms)
+        ok = ok and all(np.array_equal(pg.landmarks[nm].points, a) for nm, a in b.lms)
+        ctx.expect(ok, "as_pointgraph.landmarks_not_carried", "")
+    js = mesh.tojson()
+    jl = js.get("landmarks", {}) if isinstance(js, dict) else {}
+    if ctx.expect(isinstance(jl, dict) and "points" in jl and "connectivity" in jl, "tojson.keys", lambda: repr(js)[:300]):
+        JP = np.asarray(jl["points"], dtype=float)
+        ctx.expect(isinstance(jl["points"], list) and JP.shape == P.shape and np.array_equal(JP, P), "tojson.points", lambda: repr(jl["points"])[:300])
+        conn = jl["connectivity"]
+        okc = isinstance(conn, list) and all(isinstance(e_, list) and len(e_) == 2 and all(type(v) is int for v in e_) for e_ in conn)
+        if ctx.expect(okc, "tojson.connectivity_type", lambda: repr(conn)[:300]):
+            got = [ukey(a, c2) for a, c2 in conn]
+            ctx.expect(len(set(got)) == len(got) and set(got) == set(counts), "tojson.connectivity",
+                       lambda: "trilist=%s\n connectivity %s\n want %s" % (T, sorted(got), sorted(counts)))
 
     # ---- per-triangle edges consistent with the trilist (AB, BC, CA as unordered pairs)
     EI = np.asarray(mesh.edge_indices())
@@ -894,6 +1048,324 @@ def c_edges(case, ctx):
     ctx.expect(dd is None, "edges.receiver_mutated", lambda: repr(dd))
 
 
+# ==============================================================================================
+# clause 4: meshes whose vertex count sits at / beyond the limits of compact index dtypes
+
+
+BIG_LIMIT = {"i8": 2**7, "u8": 2**8, "i16": 2**15, "u16": 2**16}
+BIG_LIMIT_DTYPE = {"i8": "int8", "u8": "uint8", "i16": "int16", "u16": "uint16"}
+BIG_SHAPES = {
+    # rows x cols grids whose vertex count is the index limit L of a compact dtype or up to 3 below it; 0..3 fin
+    # vertices then put n_points just below / at / above L. "mid": a few hundred .. thousand vertices
+    "i8": [[8, 16], [2, 64], [4, 32], [2, 63], [3, 42], [5, 25]],
+    "u8": [[16, 16], [2, 128], [4, 64], [8, 32], [15, 17], [3, 85], [5, 51], [2, 127], [11, 23]],
+    "mid": [[16, 17], [17, 17], [18, 15], [20, 20], [12, 40], [30, 33], [2, 300], [25, 41]],
+    "i16": [[128, 256], [2, 16384], [127, 258], [5, 6553]],
+    "u16": [[256, 256], [128, 512], [255, 257], [2, 32767], [3, 21845]],
+}
+
+
+def s_big():
+    @st.composite
+    def s(draw):
+        klass = draw(st.sampled_from(["i8"] * 4 + ["u8"] * 8 + ["mid"] * 6 + ["i16"] * 1 + ["u16"] * 2))
+        return {
+            "klass": klass,
+            "shape": draw(st.sampled_from(BIG_SHAPES[klass])),
+            # fin vertices: as many as make n_points == L exactly ("hit", where the grid allows), else 0..3
+            "hit": draw(st.sampled_from([True, True, False])),
+            "extra": draw(st.integers(0, 3)),
+            "holes": draw(st.lists(st.integers(0, 1 << 20), min_size=0, max_size=4)),
+            "cls": draw(st.sampled_from(sorted(CLS))),
+            # how the triangle list is stored: "limit" = the dtype whose largest value is L - 1 (when the indices fit),
+            # the narrowest unsigned / signed dtype that holds every index, or wide
+            "tl": draw(st.sampled_from(["limit", "limit", "limit", "unsigned", "signed", "int32", "default"])),
+            "mode": draw(st.sampled_from(["vertex", "vertex", "tri"])),
+            "density": draw(st.sampled_from([0.5, 0.9, 0.98, 0.999])),
+            "mseed": draw(st.integers(0, 2**16)),
+            # the triangle that is forced to survive: the one holding the highest vertex index, or any
+            "keep_last": draw(st.booleans()),
+            "seed_tri": draw(st.integers(0, 1 << 20)),
+        }
+
+    return s()
+
+
+def narrowest_dtype(max_index, signed):
+    for dt in ([np.int8, np.int16, np.int32, np.int64] if signed else [np.uint8, np.uint16, np.uint32, np.uint64]):
+        if max_index <= np.iinfo(dt).max:
+            return np.dtype(dt)
+    raise ValueError(max_index)
+
+
+def big_edge_keys(T, n):
+    """(nt, 3) int64 keys lo * n + hi of the undirected edges AB, BC, CA of every triangle."""
+    T = np.asarray(T, dtype=np.int64)
+    a = np.stack([T[:, 0], T[:, 1], T[:, 2]], axis=1)
+    b_ = np.stack([T[:, 1], T[:, 2], T[:, 0]], axis=1)
+    return np.minimum(a, b_) * np.int64(n) + np.maximum(a, b_)
+
+
+def big_boundary(T, n):
+    keys = big_edge_keys(T, n)
+    uniq, inv, cnt = np.unique(keys.ravel(), return_inverse=True, return_counts=True)
+    return (cnt[inv.ravel()].reshape(keys.shape) == 1).any(axis=1), uniq
+
+
+def c_big(case, ctx):
+    """Grid meshes (with holes and fin triangles) of 254 .. 65.8k vertices whose triangle list is stored in the narrowest
+    integer dtype that holds the indices: boundary / unique edges / graph edges and masking against vectorised int64
+    references."""
+    r, c_ = case["shape"]
+    ng = r * c_
+    L = BIG_LIMIT.get(case["klass"])
+    e = case["extra"]
+    if L is not None and case["hit"] and 0 <= L - ng <= 3:
+        e = L - ng
+    n = ng + e
+    rs = np.random.RandomState(case["mseed"])
+    grid = np.array([[i, j] for i in range(r) for j in range(c_)], dtype=float)
+    P = np.vstack([grid, np.array([[-1.0 - k, -1.0 - 0.5 * k] for k in range(e)]).reshape(e, 2)])
+    Tl = []
+    for i in range(r - 1):
+        for j in range(c_ - 1):
+            a, b_, c2, d_ = i * c_ + j, i * c_ + j + 1, (i + 1) * c_ + j, (i + 1) * c_ + j + 1
+            Tl.append([a, c2, d_])
+            Tl.append([a, d_, b_])
+    for h in sorted(set(h % len(Tl) for h in case["holes"]), reverse=True):
+        del Tl[h]
+    for k in range(e):  # fin triangles on existing edges, owning the highest vertex indices
+        t0 = Tl[(case["seed_tri"] + 7 * k) % len(Tl)]
+        Tl.append([t0[1], t0[0], ng + k])
+    T = np.array(Tl, dtype=np.int64)
+    nt = T.shape[0]
+    if case["tl"] == "default":
+        tdt = np.dtype(int)
+    elif case["tl"] == "int32":
+        tdt = np.dtype(np.int32)
+    elif case["tl"] == "limit" and L is not None and n <= L:
+        tdt = np.dtype(BIG_LIMIT_DTYPE[case["klass"]])
+    else:
+        tdt = narrowest_dtype(n - 1, case["tl"] == "signed")
+    at_limit = tdt.kind in "iu" and n - 1 == np.iinfo(tdt).max
+    ctx.event("n_points: %s" % ("<= 128" if n <= 128 else ("129 .. 256" if n <= 256 else ("257 .. 32768" if n <= 32768 else ("32769 .. 65536" if n <= 65536 else "> 65536")))))
+    ctx.event("trilist dtype %s" % tdt)
+    if at_limit:
+        ctx.event("highest vertex index == largest value of the trilist dtype")
+    cls = CLS[case["cls"]]
+    colours = tcoords = texture = None
+    if cls is TriMesh:
+        mesh = TriMesh(P, trilist=T.astype(tdt))
+    elif cls is ColouredTriMesh:
+        colours = rs.randint(0, 256, size=(n, 3)).astype(np.uint8)
+        mesh = ColouredTriMesh(P, trilist=T.astype(tdt), colours=colours)
+    else:
+        tcoords = np.round(rs.rand(n, 2) * 4096) / 4096
+        texture = Image(rs.rand(1, 3, 4))
+        mesh = TexturedTriMesh(P, tcoords, texture, trilist=T.astype(tdt))
+    ctx.expect(np.asarray(mesh.trilist).dtype == tdt, "big.harness_trilist_dtype", lambda: "%s" % np.asarray(mesh.trilist).dtype)
+
+    # ---- mask (plain numpy reference model)
+    if case["mode"] == "vertex":
+        vm = rs.rand(n) < case["density"]
+        seed_tri = nt - 1 if case["keep_last"] else case["seed_tri"] % nt
+        vm[T[seed_tri]] = True
+        tmask = None
+    else:
+        tmask = rs.rand(nt) < case["density"]
+        tmask[nt - 1 if case["keep_last"] else case["seed_tri"] % nt] = True
+        vm = np.zeros(n, dtype=bool)
+        vm[T[tmask].ravel()] = True
+    all_true = bool(vm.all())
+    if all_true:
+        keep_t = np.ones(nt, dtype=bool)
+        exp_verts = np.arange(n)
+    else:
+        keep_t = vm[T].all(axis=1)
+        exp_verts = np.unique(T[keep_t])
+    ctx.nontrivial(tdt.itemsize < 8 and len(exp_verts) < n)
+    ctx.event("mode=" + case["mode"])
+    if int(exp_verts.max()) == n - 1:
+        ctx.event("mask keeps the highest vertex index")
+
+    # ---- edges / boundary of the receiver (asked before masking, as in the mask clause)
+    def check_topology(m, Tm, nm, tag):
+        want_b, want_u = big_boundary(Tm, nm)
+        got_b = np.asarray(m.boundary_tri_index())
+        ctx.expect(got_b.shape == want_b.shape and got_b.dtype == bool and np.array_equal(got_b, want_b), tag + ".boundary_tri_index",
+                   lambda: "n_points=%d trilist %s: %d triangles flagged, reference %d; first differing triangle %s" % (
+                       nm, np.asarray(m.trilist).dtype, int(np.sum(got_b)), int(want_b.sum()),
+                       (np.nonzero(got_b != want_b)[0][:1].tolist() if got_b.shape == want_b.shape else "shape")))
+        UE = np.asarray(m.unique_edge_indices())
+        if ctx.expect(UE.ndim == 2 and UE.shape[1] == 2, tag + ".unique_edges_shape", repr(UE.shape)):
+            ue = UE.astype(np.int64)
+            got_u = np.sort(np.minimum(ue[:, 0], ue[:, 1]) * np.int64(nm) + np.maximum(ue[:, 0], ue[:, 1]))
+            ctx.expect(got_u.shape == want_u.shape and np.array_equal(got_u, want_u), tag + ".unique_edges",
+                       lambda: "n_points=%d trilist %s: %d rows (%d distinct), reference %d edges" % (
+                           nm, np.asarray(m.trilist).dtype, len(got_u), len(np.unique(got_u)), len(want_u)))
+            UV = np.asarray(m.unique_edge_vectors())
+            Pm = np.asarray(m.points, dtype=float)
+            if UV.shape == (len(ue), Pm.shape[1]) and ue.size and ue.min() >= 0 and ue.max() < nm:
+                W = Pm[ue[:, 1]] - Pm[ue[:, 0]]
+                ok = bool(np.all(np.minimum(np.abs(UV - W).max(axis=1), np.abs(UV + W).max(axis=1)) <= 1e-9 * max(r, c_)))
+                ctx.expect(ok, tag + ".unique_edge_vectors", "rows are not +-(p_j - p_i) of the unique edge rows")
+            UL = np.sort(np.asarray(m.unique_edge_lengths(), dtype=float))
+            wl = np.sort(np.linalg.norm(Pm[want_u % nm] - Pm[want_u // nm], axis=1))
+            ctx.expect(UL.shape == wl.shape and close(UL, wl, rtol=0, atol=1e-9 * max(r, c_)), tag + ".unique_edge_lengths",
+                       lambda: "%d lengths, reference %d" % (len(UL), len(wl)))
+        GE = np.asarray(m.as_pointgraph().edges)
+        if ctx.expect(GE.ndim == 2 and GE.shape[1] == 2, tag + ".graph_edges_shape", repr(GE.shape)):
+            ge = GE.astype(np.int64)
+            got_g = np.sort(np.minimum(ge[:, 0], ge[:, 1]) * np.int64(nm) + np.maximum(ge[:, 0], ge[:, 1]))
+            ctx.expect(got_g.shape == want_u.shape and np.array_equal(got_g, want_u), tag + ".graph_edges",
+                       lambda: "n_points=%d trilist %s: %d graph edges, reference %d" % (nm, np.asarray(m.trilist).dtype, len(got_g), len(want_u)))
+
+    check_topology(mesh, T, n, "big")
+    before = digest(mesh)
+    arg = (vm if tmask is None else tmask).copy()
+    try:
+        res = mesh.from_mask(arg) if tmask is None else mesh.from_tri_mask(arg)
+    except IndexError as ex:
+        # renumbering of the surviving indices fails when the highest surviving index is the largest value the
+        # trilist's dtype can hold (index arithmetic done in that dtype)
+        if tdt.kind in "iu" and int(exp_verts.max()) == np.iinfo(tdt).max:
+            ctx.fail("mask.index_dtype_limit_crash", "n_points=%d trilist %s, mask keeps vertex %d: %s: %s" % (
+                n, tdt, int(exp_verts.max()), type(ex).__name__, ex))
+            return
+        raise
+    dd = parameter_mutation(before, digest(mesh))
+    ctx.expect(dd is None, "big.mask_receiver_mutated", lambda: repr(dd))
+    ctx.expect(type(res) is type(mesh), "big.mask_result_class", type(res).__name__)
+    RP, RT = np.asarray(res.points), np.asarray(res.trilist)
+    if not ctx.expect(RP.ndim == 2 and RP.shape[1] == 2 and RT.ndim == 2 and RT.shape[1] == 3 and RT.dtype.kind in "iu",
+                      "big.mask_result_shapes", lambda: "points %s trilist %s %s" % (RP.shape, RT.shape, RT.dtype)):
+        return
+    index_of = {}
+    for i in range(n):
+        index_of[(float(P[i, 0]), float(P[i, 1]))] = i
+    orig = [index_of.get((float(x), float(y))) for x, y in RP]
+    if not ctx.expect(all(o is not None for o in orig), "big.mask_points_not_from_receiver", "a result point is no receiver point"):
+        return
+    orig = np.array(orig, dtype=np.int64)
+    ctx.expect(np.array_equal(np.sort(orig), exp_verts), "big.mask_kept_vertices",
+               lambda: "n_points=%d trilist %s: %d vertices kept (%d distinct), reference %d" % (n, tdt, len(orig), len(np.unique(orig)), len(exp_verts)))
+    rt = RT.astype(np.int64)
+    if not ctx.expect(rt.size > 0 and rt.min() >= 0 and rt.max() < RP.shape[0], "big.mask_trilist_out_of_range",
+                      lambda: "n_points=%d, trilist %s min %s max %s" % (RP.shape[0], RT.dtype, rt.min() if rt.size else None, rt.max() if rt.size else None)):
+        return
+
+    def canon(tri):
+        tri = np.sort(np.asarray(tri, dtype=np.int64), axis=1)
+        return tri[np.lexsort((tri[:, 2], tri[:, 1], tri[:, 0]))]
+
+    got_t, want_t = canon(orig[rt]), canon(T[keep_t])
+    ctx.expect(got_t.shape == want_t.shape and np.array_equal(got_t, want_t), "big.mask_triangles",
+               lambda: "n_points=%d trilist %s -> %s: %d triangles, reference %d; %s" % (
+                   n, tdt, RT.dtype, len(got_t), len(want_t),
+                   "first difference at sorted row %d" % int(np.nonzero((got_t != want_t).any(axis=1))[0][0]) if got_t.shape == want_t.shape else "counts differ"))
+    if colours is not None:
+        RC = np.asarray(res.colours)
+        ctx.expect(RC.shape == (RP.shape[0], 3) and np.array_equal(RC, colours[orig]), "big.mask_colours_not_carried", "")
+    if tcoords is not None:
+        RC = np.asarray(res.tcoords.points)
+        ctx.expect(RC.shape == (RP.shape[0], 2) and np.array_equal(RC, tcoords[orig]), "big.mask_tcoords_not_carried", "")
+    # the result answers for its own connectivity
+    check_topology(res, rt, RP.shape[0], "big.masked")
+
+
+# ==============================================================================================
+# clause 5: masking inside init_from_depth_image (masked depth images)
+
+
+def s_depth():
+    @st.composite
+    def s(draw):
+        h, w = draw(st.integers(2, 5)), draw(st.integers(2, 5))
+        r0 = draw(st.integers(0, h - 2))
+        c0 = draw(st.integers(0, w - 2))
+        return {
+            "cls": draw(st.sampled_from(sorted(CLS))),
+            "shape": [h, w],
+            "depth": draw(st.lists(gen.q(-4, 4), min_size=h * w, max_size=h * w)),
+            # plain Image, MaskedImage with an all-true mask, MaskedImage whose mask is a block of >= 2 x 2 pixels
+            # (every kept pixel then lies in a whole kept triangle: no orphans, which the constructor does not support)
+            "kind": draw(st.sampled_from(["image", "all", "block", "block", "block"])),
+            "block": [r0, draw(st.integers(r0 + 2, h)), c0, draw(st.integers(c0 + 2, w))],
+            "aseed": draw(st.integers(0, 2**16)),
+            "adtype": draw(st.sampled_from([None, "uint8"])),
+        }
+
+    return s()
+
+
+def c_depth(case, ctx):
+    from menpo.image import MaskedImage
+
+    h, w = case["shape"]
+    n = h * w
+    cls = CLS[case["cls"]]
+    rs = np.random.RandomState(case["aseed"])
+    depth = np.array(case["depth"], dtype=float).reshape(1, h, w)
+    keep = np.ones((h, w), dtype=bool)
+    if case["kind"] == "block":
+        r0, r1, c0, c1 = case["block"]
+        keep[:] = False
+        keep[r0:r1, c0:c1] = True
+    img = Image(depth.copy()) if case["kind"] == "image" else MaskedImage(depth.copy(), mask=keep.copy())
+    colours = tcoords = texture = None
+    if cls is TriMesh:
+        res = TriMesh.init_from_depth_image(img)
+    elif cls is ColouredTriMesh:
+        colours = np.round(rs.rand(n, 3) * 4096) / 4096
+        if case["adtype"] == "uint8":
+            colours = np.floor(colours * 255.999).astype(np.uint8)
+        res = ColouredTriMesh.init_from_depth_image(img, colours=colours.copy())
+    else:
+        tcoords = np.round(rs.rand(n, 2) * 4096) / 4096
+        texture = Image(rs.rand(3, 3, 4))
+        res = TexturedTriMesh.init_from_depth_image(img, tcoords=tcoords.copy(), texture=texture)
+    ctx.event("cls=" + case["cls"])
+    ctx.event("depth image: " + case["kind"])
+    ctx.nontrivial(not keep.all())
+    ctx.expect(type(res) is cls, "depth.result_class", type(res).__name__)
+    RP, RT = np.asarray(res.points), np.asarray(res.trilist)
+    if not ctx.expect(RP.ndim == 2 and RP.shape[1] == 3 and RT.ndim == 2 and RT.shape[1] == 3, "depth.result_shapes",
+                      lambda: "points %s trilist %s" % (RP.shape, RT.shape)):
+        return
+    # vertex j sits on pixel (x, y) = its first two coordinates and carries that pixel's depth
+    pix = []
+    for j in range(RP.shape[0]):
+        x, y = float(RP[j, 0]), float(RP[j, 1])
+        ok = x == int(x) and y == int(y) and 0 <= x < h and 0 <= y < w
+        pix.append(int(x) * w + int(y) if ok else None)
+    if not ctx.expect(all(q_ is not None for q_ in pix), "depth.points_off_the_pixel_grid", lambda: repr(RP)):
+        return
+    want_pix = [i * w + j for i in range(h) for j in range(w) if keep[i, j]]
+    ctx.expect(sorted(pix) == want_pix, "depth.kept_vertices", lambda: "mask\n%s\nvertices on pixels %s" % (keep.astype(int), sorted(pix)))
+    ctx.expect(all(float(RP[j, 2]) == float(depth[0].ravel()[pix[j]]) for j in range(len(pix))), "depth.z_not_the_pixels_depth",
+               lambda: "points\n%s\ndepth\n%s" % (RP, depth[0]))
+    want_t = []
+    for i in range(h - 1):
+        for j in range(w - 1):
+            a, b_, c2, d_ = i * w + j, i * w + j + 1, (i + 1) * w + j, (i + 1) * w + j + 1
+            for tri in ((a, c2, d_), (a, d_, b_)):  # diagonal from the top left to the bottom right of each cell
+                if all(keep.ravel()[v] for v in tri):
+                    want_t.append(tuple(sorted(tri)))
+    if ctx.expect(RT.size > 0 and int(RT.min()) >= 0 and int(RT.max()) < RP.shape[0], "depth.trilist_out_of_range", lambda: repr(RT.tolist())):
+        got_t = sorted(tuple(sorted(pix[int(v)] for v in row)) for row in RT)
+        ctx.expect(got_t == sorted(want_t), "depth.triangles", lambda: "mask\n%s\n triangles (pixel numbering) %s\n reference %s" % (
+            keep.astype(int), got_t, sorted(want_t)))
+    if colours is not None:
+        RC = np.asarray(res.colours)
+        ok = RC.shape == (RP.shape[0], 3) and all(np.array_equal(RC[j], colours[pix[j]]) for j in range(len(pix)))
+        ctx.expect(ok, "depth.colours_not_carried", lambda: "mask\n%s\ncolours %s\ngiven %s" % (keep.astype(int), RC, colours))
+    if tcoords is not None:
+        RC = np.asarray(res.tcoords.points)
+        ok = RC.shape == (RP.shape[0], 2) and all(np.array_equal(RC[j], tcoords[pix[j]]) for j in range(len(pix)))
+        ctx.expect(ok, "depth.tcoords_not_carried", lambda: "mask\n%s\ntcoords %s\ngiven %s" % (keep.astype(int), RC, tcoords))
+        ctx.expect(np.array_equal(res.texture.pixels, texture.pixels), "depth.texture_changed", "")
+
+
 CLAUSES = [
     Clause("mask", c_mask, s_mask, quick=2400, thorough=60000, nt_floor=0.5,
            rule="mesh x (vertex mask | triangle mask), one seed triangle forced in; reference = set model of kept triangles / "
@@ -906,4 +1378,15 @@ CLAUSES = [
     Clause("slim", c_slim, s_slim, quick=600, thorough=15000, nt_floor=0.5,
            rule="3-D grid meshes with triangles of aspect 1 .. 1e-7 in float64 / float32 coordinates, posed by a rotation; areas "
                 "vs float64 cross-product reference with tolerance 50*eps/aspect relative to each area"),
+    Clause("big", c_big, s_big, quick=48, thorough=900, nt_floor=0.25,
+           rule="grid meshes with holes and fin triangles of 125 .. 65.8k vertices (sizes just below / at / above 2^7, 2^8, "
+                "2^15, 2^16, and a few hundred .. thousand), trilist stored in the dtype whose limit that is, the narrowest "
+                "unsigned / signed dtype holding the indices, int32 or the default; boundary / unique edges / graph edges and a "
+                "vertex or triangle mask against vectorised int64 references; non-trivial: trilist narrower than 64 bit and "
+                "the mask removes >= 1 vertex"),
+    Clause("depth", c_depth, s_depth, quick=160, thorough=4000, nt_floor=0.15,
+           rule="init_from_depth_image of the three classes on 2..5 x 2..5 depth images: plain Image, MaskedImage with an "
+                "all-true mask or a block mask of >= 2 x 2 pixels (no orphans); vertices = kept pixels with their depth, "
+                "triangles = the grid's triangles inside the mask, colours / tcoords of the kept pixels; non-trivial: the "
+                "mask removes >= 1 pixel"),
 ]
